@@ -16,7 +16,7 @@ int nondet_int(void);
 #endif
 
 struct m14_state M14;
-static int m14_hint_valid, m14_ms_valid;
+static int m14_hint_valid, m14_ms_valid, m14_mk_valid;
 static char m14_envbuf[M14_STRMAX + 3];
 static const char m14_ambient[M14_STRMAX] = M14_AMBIENT_STR;
 
@@ -45,7 +45,7 @@ void m14_reset(int ambient_set)
   M14.cell = M14.active = ambient_set ? M14_TZ_AMBIENT : M14_TZ_UNSET;
   M14.n_setenv = M14.n_setenv_failed = M14.n_unsetenv = M14.n_tzset = 0;
   M14.n_mktime = M14.n_mktime_failed = M14.n_time_failed = M14.n_localtime_dirty = 0;
-  m14_hint_valid = 0; m14_ms_valid = 0;
+  m14_hint_valid = 0; m14_ms_valid = 0; m14_mk_valid = 0;
   M14.hint_midnight = 0;
   for (i = 0; i < M14_LOG; i++) {
     struct m14_mkcall *c = &M14.mk[i];
@@ -56,6 +56,11 @@ void m14_reset(int ambient_set)
 }
 
 /* ------------------------------------------------------------------ calendar, forward direction */
+/* a * c in two's complement without a signed-overflow check of double width (the operands are range-asserted,
+ * the products cannot overflow; an unsigned product is the same bits and keeps the formula small) */
+#define M14_MUL64(a, c) ((int64_t) ((uint64_t) (int64_t) (a) * (uint64_t) (c)))
+
+
 /* floor(n/100) for 0 <= n < 43699 without a divider (checked natively against '/' in the self check) */
 static int m14_div100(int n) { return (int) (((unsigned) n * 5243u) >> 19); }
 
@@ -100,7 +105,7 @@ static int64_t m14_ms_secs;
 static int64_t m14_month_start_secs(int y, int mon0)
 {
   if (!(m14_ms_valid && y == m14_ms_y && mon0 == m14_ms_m)) {
-    m14_ms_secs = (int64_t) m14_month_start(y, mon0) * 86400;
+    m14_ms_secs = M14_MUL64(m14_month_start(y, mon0), 86400);   /* |month_start| < 2^20 */
     m14_ms_y = y; m14_ms_m = mon0; m14_ms_valid = 1;
   }
   return m14_ms_secs;
@@ -112,14 +117,18 @@ int64_t m14_days_from_civil(int y, int mon0, int mday)
   return m14_month_start(y, mon0) + (mday - 1);
 }
 
+static int64_t m14_linear_part(int mday, int h, int mi, int s)
+{
+  M_ASSERT(mday >= -1000 && mday <= 1000, "m14_model_mday_range");
+  M_ASSERT(h >= -100000 && h <= 100000 && mi >= -100000 && mi <= 100000 && s >= -100000 && s <= 100000, "m14_model_hms_range");
+  return M14_MUL64(mday - 1, 86400) + M14_MUL64(h, 3600) + M14_MUL64(mi, 60) + s;
+}
+
 /* LINEAR in mday, h, mi, s by construction (this is how mktime/timegm treat out-of-range fields):
  *   secs(y, m, d + a, h, mi, s) == secs(y, m, d, 0, 0, 0) + a*86400 + h*3600 + mi*60 + s  */
 int64_t m14_secs_from_civil(int y, int mon0, int mday, int h, int mi, int s)
 {
-  M_ASSERT(mday >= -1000 && mday <= 1000, "m14_model_mday_range");
-  M_ASSERT(h >= -100000 && h <= 100000 && mi >= -100000 && mi <= 100000 && s >= -100000 && s <= 100000, "m14_model_hms_range");
-  return m14_month_start_secs(y, mon0)
-         + ((int64_t) (mday - 1) * 86400 + (int64_t) h * 3600 + (int64_t) mi * 60 + s);
+  return m14_month_start_secs(y, mon0) + m14_linear_part(mday, h, mi, s);
 }
 
 /* ------------------------------------------------------------------ calendar, inverse direction */
@@ -137,8 +146,8 @@ int64_t m14_hint_civil(int y, int mon0, int mday, int h, int mi, int s)
 {
   M_ASSERT(y >= M14_YLO && y <= M14_YHI && mon0 >= 0 && mon0 <= 11 && mday >= 1 && mday <= m14_days_in_month(y, mon0)
            && h >= 0 && h < 24 && mi >= 0 && mi < 60 && s >= 0 && s < 60, "m14_hint_is_canonical");
-  M14.hint_midnight = m14_month_start_secs(y, mon0) + (int64_t) (mday - 1) * 86400;
-  m14_hint_t = M14.hint_midnight + ((int64_t) h * 3600 + (int64_t) mi * 60 + s);
+  M14.hint_midnight = m14_month_start_secs(y, mon0) + M14_MUL64(mday - 1, 86400);
+  m14_hint_t = M14.hint_midnight + (int64_t) (h * 3600 + mi * 60 + s);
   m14_hint_f[0] = y; m14_hint_f[1] = mon0; m14_hint_f[2] = mday; m14_hint_f[3] = h; m14_hint_f[4] = mi; m14_hint_f[5] = s;
   m14_hint_valid = 1;
   return m14_hint_t;
@@ -165,28 +174,30 @@ void m14_civil_from_secs(int64_t t, int *y, int *mon0, int *mday, int *h, int *m
   const int64_t dlo = m14_days_from_civil(M14_YLO, 0, 1), dhi = m14_days_from_civil(M14_YHI + 1, 0, 1);
   M_ASSERT(t >= dlo * 86400 && t < dhi * 86400, "m14_model_time_range");
 #ifdef VERIF_CBMC
+#ifndef M14_NO_HINT
+  if (m14_hint_valid && t == m14_hint_t) {
+    /* lemma instance: the forward function is injective on canonical fields (see above) */
+    *y = m14_hint_f[0]; *mon0 = m14_hint_f[1]; *mday = m14_hint_f[2];
+    *h = m14_hint_f[3]; *mi = m14_hint_f[4]; *s = m14_hint_f[5];
+  } else
+#endif
   {
     int days = nondet_int(), sod = nondet_int();
     int yy = nondet_int(), mm = nondet_int(), dd = nondet_int();
     int hh = nondet_int(), mi_ = nondet_int(), ss = nondet_int();
     M_ASSUME(days >= dlo && days < dhi);
     M_ASSUME(sod >= 0 && sod < 86400);
-    M_ASSUME((int64_t) days * 86400 + sod == t);
+    M_ASSUME(M14_MUL64(days, 86400) + sod == t);
     M_ASSUME(yy >= M14_YLO && yy <= M14_YHI);
     M_ASSUME(mm >= 0 && mm <= 11);
     M_ASSUME(dd >= 1 && dd <= m14_days_in_month(yy, mm));
-    M_ASSUME(m14_days_from_civil(yy, mm, dd) == days);
+    M_ASSUME(m14_month_start(yy, mm) + (dd - 1) == days);
     M_ASSUME(hh >= 0 && hh < 24 && mi_ >= 0 && mi_ < 60 && ss >= 0 && ss < 60);
     M_ASSUME(hh * 3600 + mi_ * 60 + ss == sod);
-#ifndef M14_NO_HINT
-    if (m14_hint_valid && t == m14_hint_t)
-      M_ASSUME(yy == m14_hint_f[0] && mm == m14_hint_f[1] && dd == m14_hint_f[2]
-               && hh == m14_hint_f[3] && mi_ == m14_hint_f[4] && ss == m14_hint_f[5]);
-#endif
     *y = yy; *mon0 = mm; *mday = dd; *h = hh; *mi = mi_; *s = ss;
-    /* not used by the unit under test: unconstrained under CBMC (over-approximation) */
-    *wday = nondet_int(); *yday = nondet_int();
   }
+  /* not used by the unit under test: unconstrained under CBMC (over-approximation) */
+  *wday = nondet_int(); *yday = nondet_int();
 #else
   {
     int64_t days = (t >= 0 ? t : t - 86399) / 86400;
@@ -248,12 +259,23 @@ static void m14_log_mk(unsigned k, const struct tm *tm, int zone)
   }
 }
 
-static time_t m14_mk(struct tm *tm, int32_t off, unsigned k)
+/* secs_from_civil(tm_year + 1900, tm_mon, tm_mday, tm_hour, tm_min, tm_sec).  The month term is memoised on the raw
+ * tm_year/tm_mon, unconditionally and before any failure exit, so that two calls on copies of one struct tm
+ * (pdc.c: begin/end of a validity window) share it syntactically and their results differ by the linear part only */
+static int m14_mk_ty, m14_mk_tm;
+static int64_t m14_mk_base;
+static int64_t m14_mk_local(const struct tm *tm)
 {
-  int64_t local, t;
   M_ASSERT(tm->tm_year >= M14_YLO - 1900 && tm->tm_year <= M14_YHI - 1900, "m14_model_year_range");
-  local = m14_secs_from_civil(tm->tm_year + 1900, tm->tm_mon, tm->tm_mday, tm->tm_hour, tm->tm_min, tm->tm_sec);
-  t = local - off;
+  if (!(m14_mk_valid && tm->tm_year == m14_mk_ty && tm->tm_mon == m14_mk_tm)) {
+    m14_mk_base = m14_month_start_secs(tm->tm_year + 1900, tm->tm_mon);
+    m14_mk_ty = tm->tm_year; m14_mk_tm = tm->tm_mon; m14_mk_valid = 1;
+  }
+  return m14_mk_base + m14_linear_part(tm->tm_mday, tm->tm_hour, tm->tm_min, tm->tm_sec);
+}
+
+static time_t m14_mk_finish(struct tm *tm, int64_t local, int32_t off, unsigned k)
+{
   if (k < M14_LOG) { M14.mk[k].failed = 0; M14.mk[k].local = local; }
 #ifdef VERIF_CBMC
   /* normalised fields are written back by the real mktime; the unit under test never reads them:
@@ -264,24 +286,26 @@ static time_t m14_mk(struct tm *tm, int32_t off, unsigned k)
 #else
   m14_fill_tm(tm, local, off);
 #endif
-  return (time_t) t;
+  return (time_t) (local - off);
 }
 
 time_t mktime(struct tm *tm)
 {
   unsigned k = M14.n_mktime++;
+  int64_t local;
   M14.active = M14.cell;  /* POSIX: mktime() behaves as though tzset() were called */
   m14_log_mk(k, tm, M14.active);
+  local = m14_mk_local(tm);
   if (k < 8 && ((M14.mktime_fail_mask >> k) & 1)) { M14.n_mktime_failed++; errno = EOVERFLOW; return (time_t) -1; }
   M_ASSERT(M14.active >= 0 && M14.active < M14_TZ_N, "m14_active_id");
-  return m14_mk(tm, M14.off[M14.active], k);
+  return m14_mk_finish(tm, local, M14.off[M14.active], k);
 }
 
 time_t timegm(struct tm *tm)
 {
   unsigned k = M14.n_mktime++;   /* same ghost log as mktime, zone UTC (not used by pdc.c without HAVE_TIMEGM) */
   m14_log_mk(k, tm, M14_TZ_UTC);
-  return m14_mk(tm, 0, k);
+  return m14_mk_finish(tm, m14_mk_local(tm), 0, k);
 }
 
 /* ------------------------------------------------------------------ libc: environment */
